@@ -471,7 +471,7 @@ func shuffle(rep *report.Report, cfg Config, dl time.Time) {
 		return
 	}
 	perms := 0
-	res := mc.DFS(mc.SchedConfig{Name: "shuffle", Bound: 0, SwitchCost: 1, Deadline: dl, MaxSteps: 5000000, Body: func() {
+	res := mc.DFS(mc.SchedConfig{Name: "shuffle", NoStateCache: true, Bound: 0, SwitchCost: 1, Deadline: dl, MaxSteps: 5000000, Body: func() {
 		w := newWorld(cfg)
 		v := w.runTest(target)
 		rt.Emit("verdict", v)
